@@ -14,7 +14,7 @@ def main(run: Run):
         if run.replay:
             behs = run.replay_behaviours(sw)
         elif sw == "random":
-            behs = fc.gen_shapes(run, sw, num=(4000 if thorough else 400), seed=run.seed)
+            behs = fc.gen_shapes(run, sw, num=(12000 if thorough else 400), seed=run.seed)
         else:
             behs = fc.gen_shapes(run, sw, seed=run.seed)
         if not behs:
@@ -35,8 +35,9 @@ RULE = ("behaviours = abstract message shapes x session options enumerated by TL
 ASSUMPTIONS = [
     "trusted: my transcription of the RFC framing rules in spec/Framing.tla and of the expected wire image in "
     "spec/FramingDom.tla (cross-checked against each other exhaustively in small scope by MCFraming)",
-    "value-level equality is the harness-computed boolean `equal` (reflect.DeepEqual modulo nil/empty slices) "
-    "on the generated examples only",
+    "value-level equality is the harness-computed boolean `equal` (reflect.DeepEqual modulo nil/empty slices and "
+    "modulo the pure wire-length caches PathAttribute.Length / extended-length bit, OpaqueNLRI.Length, "
+    "TunnelEncapTLV.Length - their agreement with the octets is C04_LenAgrees) on the generated examples only",
     "NOT covered: 'for all byte strings the parser accepts' (fuzzing territory); MRT marshalling option; "
     "NLRI/attribute sub-TLV values beyond their outer length fields",
 ]
